@@ -83,6 +83,42 @@ func keyStoreCall(in ssa.Instruction, names ...string) (ssa.Value, string, bool)
 	return nil, "", false
 }
 
+// httpObject: the request / response object (a value of the simulator's wrapper types) a header map or a key store
+// belongs to, rendered as an access path; "" when it cannot be named.
+func httpObject(v ssa.Value) string {
+	for i := 0; i < 12 && v != nil; i++ {
+		if n := core.NamedTypePkgName(v.Type()); n == ihttpPkg+".Request" || n == ihttpPkg+".Response" {
+			if _, isPtr := v.Type().Underlying().(*types.Pointer); isPtr {
+				return accessPath(v)
+			}
+		}
+		switch t := v.(type) {
+		case *ssa.UnOp:
+			v = t.X
+		case *ssa.FieldAddr:
+			v = t.X
+		case *ssa.Field:
+			v = t.X
+		case *ssa.ChangeType:
+			v = t.X
+		default:
+			return ""
+		}
+	}
+	return ""
+}
+
+// sameObject: the header map and the key store belong to the same request / response object (or one of them cannot
+// be named: nothing is concluded then).
+func sameObject(header ssa.Value, in ssa.Instruction) bool {
+	ci, ok := in.(ssa.CallInstruction)
+	if !ok || len(ci.Common().Args) == 0 {
+		return true
+	}
+	a, b := httpObject(header), httpObject(ci.Common().Args[0])
+	return a == "" || b == "" || a == b
+}
+
 func sameKey(a, b ssa.Value) bool {
 	if a == b {
 		return true
@@ -248,7 +284,7 @@ func runC17(c *core.Ctx) {
 				switch op {
 				case "Del":
 					okPair := mustFollow(in, func(i2 ssa.Instruction) bool {
-						if k2, _, ok := keyStoreCall(i2, "Unassign"); ok && sameKey(k, k2) {
+						if k2, _, ok := keyStoreCall(i2, "Unassign"); ok && sameKey(k, k2) && sameObject(h, i2) {
 							return true
 						}
 						if _, k2, _, ok := isNetHeaderCall(i2, "Set", "Add"); ok && sameKey(k, k2) {
@@ -287,12 +323,12 @@ func runC17(c *core.Ctx) {
 				case "Set", "Add":
 					after := mustFollow(in, func(i2 ssa.Instruction) bool {
 						k2, _, ok := keyStoreCall(i2, "Assign")
-						return ok && sameKey(k, k2)
+						return ok && sameKey(k, k2) && sameObject(h, i2)
 					})
 					before := false
 					for _, b2 := range fn.Blocks {
 						for _, i2 := range b2.Instrs {
-							if k2, _, ok := keyStoreCall(i2, "Assign"); ok && sameKey(k, k2) && core.InstrDominates(i2, in) {
+							if k2, _, ok := keyStoreCall(i2, "Assign"); ok && sameKey(k, k2) && sameObject(h, i2) && core.InstrDominates(i2, in) {
 								before = true
 							}
 						}
@@ -307,6 +343,75 @@ func runC17(c *core.Ctx) {
 		}
 	}
 	c.Floor("hdr.pair", 12)
+
+	// ---- hdr.exact: a name or key taken from the program selects exactly the header, sub-field or cookie of that
+	// name. Matching it by prefix or substring is the wildcard form (`unset req.http.X-*`) and allowed only behind the
+	// test for the trailing `*`; anywhere else `Cookie:id` also hits `id_token`.
+	for _, fn := range vfuncs {
+		ord := 0
+		for _, b := range fn.Blocks {
+			for _, in := range b.Instrs {
+				call, ok := in.(*ssa.Call)
+				if !ok {
+					continue
+				}
+				name := calleeFullName(call.Common().StaticCallee())
+				if name != "strings.HasPrefix" && name != "strings.HasSuffix" && name != "strings.Contains" && name != "strings.Index" {
+					continue
+				}
+				pat := call.Common().Args[1]
+				if _, isConst := pat.(*ssa.Const); isConst {
+					continue
+				}
+				fromParam := false
+				for x := range core.BackSliceLocal(pat) {
+					if prm, isP := x.(*ssa.Parameter); isP {
+						if bt, isB := prm.Type().Underlying().(*types.Basic); isB && bt.Info()&types.IsString != 0 {
+							fromParam = true
+						}
+					}
+				}
+				if !fromParam {
+					continue
+				}
+				ord++
+				key := fmt.Sprintf("%s|%s#%d", core.FnName(fn), strings.TrimPrefix(name, "strings."), ord)
+				wild := false
+				for _, b2 := range fn.Blocks {
+					for _, i2 := range b2.Instrs {
+						w, isCall := i2.(*ssa.Call)
+						if !isCall {
+							continue
+						}
+						wn := calleeFullName(w.Common().StaticCallee())
+						if wn != "strings.CutSuffix" && wn != "strings.HasSuffix" {
+							continue
+						}
+						if k, isK := w.Common().Args[1].(*ssa.Const); !isK || k.Value == nil || k.Value.Kind() != constant.String || constant.StringVal(k.Value) != "*" {
+							continue
+						}
+						var flag ssa.Value = w
+						if wn == "strings.CutSuffix" && w.Referrers() != nil {
+							for _, r := range *w.Referrers() {
+								if ex, isEx := r.(*ssa.Extract); isEx && ex.Index == 1 {
+									flag = ex
+								}
+							}
+						}
+						if core.DominatedByTrue(flag, b) {
+							wild = true
+						}
+					}
+				}
+				if wild {
+					c.Discharge("hdr.exact", key, in.Pos(), "prefix match of the wildcard form, behind the test for the trailing `*`")
+				} else {
+					c.Report("hdr.exact", key, in.Pos(), fmt.Sprintf("%s matches a name taken from the program with %s outside the wildcard form: every header / sub-field / cookie whose name merely starts with (or contains) it is hit as well (`unset req.http.Cookie:id` also removes `id_token`)", core.FnName(fn), name))
+				}
+			}
+		}
+	}
+	c.Floor("hdr.exact", 2)
 
 	// ---- hdr.wild: comparisons of ranged Header keys with a raw name
 	for _, fn := range vfuncs {
